@@ -235,10 +235,10 @@ Proof.
     + apply monitor_clean. apply A5. reflexivity.
 Qed.
 
-(* the same with the precondition on the denomination spelled out: a
-   MsgConvertCoin must name the pair's own denomination (see [exec_named]) *)
+(* the handler including a MsgConvertCoin that spells its denomination like the
+   pair's contract address (see [exec_named]): exactness needs no precondition
+   on the denomination any more - such a message is refused *)
 Theorem convert_ok_exact_named E M own m other b e b' e' other' :
-  (m_dir m = CoinToToken -> own = true) ->
   exec_named E M own m other (b, e) = (Done (b', e'), other') ->
   other' = other /\
   0 < m_amt m /\ m_gate m = true /\ m_has_code m = true /\
@@ -250,12 +250,21 @@ Theorem convert_ok_exact_named E M own m other b e b' e' other' :
     t1 = t0 + token_delta m /\
     (uses_transfer m = true -> r = RetTrue /\ Forall (fun l => l = LogOther) logs).
 Proof.
-  intros Hown. unfold exec_named.
+  unfold exec_named.
   destruct (m_dir m) eqn:D.
-  - rewrite (Hown eq_refl). intros H. injection H as H <-. split; [reflexivity|].
-    apply convert_ok_exact. exact H.
+  - destruct own; intros H.
+    + injection H as H <-. split; [reflexivity|]. apply convert_ok_exact. exact H.
+    + discriminate H.
   - destruct own; intros H; injection H as H <-; (split; [reflexivity|]); apply convert_ok_exact; exact H.
 Qed.
+
+(* a coin that is merely NAMED like the pair's contract address is never converted:
+   the message is refused, both ledgers of the pair, the look-alike ledger and the
+   token contract are untouched, and the pair is not removed *)
+Theorem lookalike_denomination_refused E M m other s :
+  m_dir m = CoinToToken ->
+  exists x, exec_named E M false m other s = (Failed x (fst s), other).
+Proof. intros D. unfold exec_named. rewrite D. eexists. reflexivity. Qed.
 
 (* "debits the sender exactly that amount" / "credits the receiver exactly that amount" *)
 Corollary convert_coin_debits_sender E M m b e b' e' :
@@ -619,23 +628,7 @@ Example round_trip_needs_sender_not_module :
   end.
 Proof. vm_compute. reflexivity. Qed.
 
-(* without the precondition of convert_ok_exact_named the statement is false:
-   honest external contract, the message spells its denomination like the
-   contract address; the conversion succeeds, the receiver gets 30 escrowed
-   tokens, the sender pays 30 coins of the OTHER denomination and nothing on the
-   pair's own ledger (so bank_exact fails and the pair's supply stays 105 while
-   the escrow shrinks).  Unreachable on the chain: see [exec_named]. *)
-Definition ex_other : bank := mkBank (fun a => if a =? 1 then 40 else 0) 40.
-Definition ex_tokens_escrowed : hledger := mkH (fun a => if a =? 2 then 50 else if a =? 99 then 54 else 0) 104 1234 false.
-Example convert_ok_exact_without_own_denom_refuted :
-  match exec_named (honest 99) 99 false ex_msg_out ex_other (ex_bank, ex_tokens_escrowed) with
-  | (Done (b', h'), other') =>
-      bal b' 1 = bal ex_bank 1 /\ supply b' = supply ex_bank /\
-      tbal h' 2 = 80 /\ tbal h' 99 = 24 /\
-      bal other' 1 = 10 /\ supply other' = 10 /\
-      ~ bank_exact 99 ex_msg_out ex_bank b'
-  | _ => False
-  end.
-Proof.
-  vm_compute. repeat split. intros (_ & H & _). discriminate H.
-Qed.
+(* (before the repair of finding F6 the statement without "the message names the pair's own
+   denomination" was false - Example convert_ok_exact_without_own_denom_refuted, removed with the repair:
+   the look-alike conversion succeeded and the receiver got escrowed tokens for coins of another denomination) *)
+
